@@ -33,7 +33,7 @@ _EMBEDDED_ERR = re.compile(r"!(Null|Bounds|ZeroFill|Unmapped|Misaligned|BadMagic
 
 # which property's statement governs an operation family (error kinds named there must match exactly)
 FAMILY_OWNER = {"r2f": "C04", "f2r": "C04", "slice": "C04", "secbytes": "C04", "slice_bytes": "C04", "read_bytes": "C05", "hdrw2": "C07", "read": "C05", "r2v": "C05", "v2r": "C05",
-                "to_view": "C06", "to_file": "C06", "img_to_view": "C06", "img_to_file": "C06", "walk": "C19", "walktext": "C19", "iter": "C18", "from_bytes": "C07", "hdr": "C07", "hdrw": "C07", "byrva": "C07", "byname": "C07",
+                "to_view": "C06", "to_file": "C06", "img_to_view": "C06", "img_to_file": "C06", "walk": "C19", "walktext": "C19", "iter": "C18", "from_bytes": "C07", "hdr": "C07", "hdrw": "C07", "byrva": "C07", "byname": "C07", "secname": "C07",
                 "exports": "C08", "export": "C08", "imports": "C09", "iat": "C09", "scan": "C10", "scan_code": "C10", "finds": "C10",
                 "finds_code": "C10", "pat_exec": "C10", "pat_sem": "C11", "pat_ref": "C11", "pat_parse": "C17", "pat_macro": "C17",
                 "ver": "C13", "verat": "C13", "debug": "C15", "tls": "C15", "loadcfg": "C15", "exc": "C15", "security": "C15",
